@@ -178,22 +178,44 @@ func (f *Filter) String(prefix string) (str string) {
 		strVal = " " + strVal
 	}
 
-	// trim lower case columns prefix, they are used internally only
-	colName := strings.TrimSuffix(f.column.Name, "_lc")
+	colName := f.column.Name
+	opStr := ""
+	if f.statsType == NoStats || f.statsType == StatsGroup || f.statsType == Counter {
+		opStr = f.operator.String()
+	}
+	if strings.HasSuffix(colName, "_lc") && f.stringVal == strings.ToLower(f.stringVal) {
+		// filter on lower case columns are created from case insensitive filter, print them as such
+		// other operators have no case insensitive counterpart and keep the lower case column
+		switch f.operator {
+		case Equal:
+			opStr = "=~"
+			colName = strings.TrimSuffix(colName, "_lc")
+		case Unequal:
+			opStr = "!=~"
+			colName = strings.TrimSuffix(colName, "_lc")
+		case Contains, RegexMatch:
+			opStr = "~~"
+			colName = strings.TrimSuffix(colName, "_lc")
+		case ContainsNot, RegexMatchNot:
+			opStr = "!~~"
+			colName = strings.TrimSuffix(colName, "_lc")
+		default:
+		}
+	}
 
 	switch f.statsType {
 	case NoStats:
 		if prefix == "" {
 			prefix = "Filter"
 		}
-		str = fmt.Sprintf("%s: %s %s%s\n", prefix, colName, f.operator.String(), strVal)
+		str = fmt.Sprintf("%s: %s %s%s\n", prefix, colName, opStr, strVal)
 	case StatsGroup:
 		if prefix == "" {
 			prefix = "Filter"
 		}
-		str = fmt.Sprintf("%sGroup: %s %s%s\n", prefix, colName, f.operator.String(), strVal)
+		str = fmt.Sprintf("%sGroup: %s %s%s\n", prefix, colName, opStr, strVal)
 	case Counter:
-		str = fmt.Sprintf("Stats: %s %s%s\n", colName, f.operator.String(), strVal)
+		str = fmt.Sprintf("Stats: %s %s%s\n", colName, opStr, strVal)
 	default:
 		str = fmt.Sprintf("Stats: %s %s\n", f.statsType.String(), colName)
 	}
@@ -298,6 +320,17 @@ func (f *Filter) strValue() string {
 		value = f.stringVal
 	default:
 		log.Panicf("not implemented column type: %v", f.column.DataType)
+	}
+
+	// substring matches are printed with regular expression operators, so the plain text has to be quoted
+	switch f.operator {
+	case Contains, ContainsNot, ContainsNoCase, ContainsNoCaseNot:
+		if colType == CustomVarCol {
+			value = f.customTag + " " + regexp.QuoteMeta(f.stringVal)
+		} else {
+			value = regexp.QuoteMeta(value)
+		}
+	default:
 	}
 
 	return value
